@@ -21,15 +21,16 @@ var errInjectedRead = errors.New("injected storage read failure")
 
 // faultReader fails every ReadAt from call index failFrom on (-1: never).
 type faultReader struct {
-	inner    io.ReaderAt
-	calls    atomic.Int64
-	failures atomic.Int64
-	failFrom atomic.Int64
+	inner     io.ReaderAt
+	calls     atomic.Int64
+	failures  atomic.Int64
+	failFrom  atomic.Int64
+	failUntil atomic.Int64 // exclusive; 0 or negative: forever
 }
 
 func (r *faultReader) ReadAt(p []byte, off int64) (int, error) {
 	i := r.calls.Add(1) - 1
-	if ff := r.failFrom.Load(); ff >= 0 && i >= ff {
+	if ff, fu := r.failFrom.Load(), r.failUntil.Load(); ff >= 0 && i >= ff && (fu <= 0 || i < fu) {
 		r.failures.Add(1)
 		return 0, errInjectedRead
 	}
@@ -41,6 +42,13 @@ func (r *faultReader) arm(k int64) {
 	r.calls.Store(0)
 	r.failures.Store(0)
 	r.failFrom.Store(k)
+	r.failUntil.Store(0)
+}
+
+// armWindow makes the reads with index in [k, k+m) fail and later ones succeed again.
+func (r *faultReader) armWindow(k, m int64) {
+	r.arm(k)
+	r.failUntil.Store(k + m)
 }
 
 func swapDataReader(d *segment.Data, wrap func(io.ReaderAt) io.ReaderAt) error {
